@@ -559,7 +559,7 @@ public:
    /// Resets \ref soplex::VectorBase "VectorBase"'s memory size to \p newsize.
    void reSize(int newsize)
    {
-      assert(newsize > VectorBase<R>::dim());
+      assert(newsize >= VectorBase<R>::dim());
 
       // Problem: This is not a conventional resize for std::vector. This only
       // updates the capacity, i.e., by pushing elements to the vector after this,
